@@ -36,7 +36,8 @@ def build_atom(torch, name, D, pos, ctxf, seed):
         return m
 
     if name == "affine":
-        return TR.PointwiseAffineTransform(shift=torch.linspace(0.3, -0.4, D), scale=torch.linspace(1.7, -0.6, D))
+        k = 1.0 + 0.5 * (seed % 3)
+        return TR.PointwiseAffineTransform(shift=torch.linspace(0.3, -0.4, D) * k, scale=torch.linspace(1.7, -0.6, D) * k)
     if name == "linear":
         k = (pos + seed) % 4
         if k == 0:
@@ -111,6 +112,9 @@ def build_flow(torch, st, D, seed):
         with torch.no_grad():
             base.mean_.copy_(0.3 * torch.randn(base.mean_.shape, generator=g))
             base.log_std_.copy_(0.3 * torch.randn(base.log_std_.shape, generator=g))
+    elif D == 1:
+        # identity encoder: the context row IS (mean, log_std); the harness uses a very confident row too
+        base = Dd.ConditionalDiagonalNormal([D])
     else:
         enc = torch.nn.Linear(2, 2 * D)
         with torch.no_grad():
@@ -138,8 +142,25 @@ def mass(torch, flow, D, ctx_row, panels):
     if D == 1:
         from vcore.quad import integrate_adaptive_1d
 
+        # a very confident base concentrates the mass in a spike: put panel edges geometrically around the
+        # pre-image of the base mean so that the adaptive rule cannot step over it
+        extra = []
+        try:
+            with torch.no_grad():
+                base = flow._distribution
+                if hasattr(base, "_compute_params") and ctx_row is not None:
+                    mu = base._compute_params(flow._embedding_net(ctx_row))[0].reshape(1, -1)
+                elif hasattr(base, "mean_"):
+                    mu = base.mean_.reshape(1, -1)
+                else:
+                    mu = torch.zeros(1, 1, dtype=torch.float64)
+                x0 = flow._transform.inverse(mu.double(), ctx_row)[0]
+                t0 = float(torch.asinh(x0).reshape(-1)[0])
+                extra = [t0 + sgn * 10.0 ** k for k in range(-9, 1) for sgn in (-1.0, 1.0)] + [t0]
+        except Exception:
+            pass
         # logarithmic tails (LogTanh) are extremely heavy: x = sinh(t) up to e^80
-        return integrate_adaptive_1d(lp, -80.0, 80.0, tol=2e-8, init_panels=640)
+        return integrate_adaptive_1d(lp, -80.0, 80.0, tol=2e-8, init_panels=640, extra_edges=extra)
     return integrate(lp, [(-T_, T_)] * D, panels=panels, order=6, chunk=150000)
 
 
@@ -164,12 +185,27 @@ def flow_task(t):
         if flow is None:
             continue
         ctxs = torch.tensor([[0.5, -1.0], [-0.3, 0.8]], dtype=torch.float64) if case["ctx"] else [None]
+        if case["ctx"] and case["base"] == "ConditionalDiagonalNormal" and D == 1:
+            ctxs = torch.tensor([[0.5, -1.0], [-0.3, -7.5]], dtype=torch.float64)   # second row: std 5.5e-4
         histories = ["plain"] + (["cache_after_sample"] if "linear" in names and onto else [])
+        if onto and ({"affine", "actnorm", "linear"} & set(names)):
+            histories.append("after_load")
         for hist in histories:
             for mod in flow.modules():
                 if isinstance(mod, Linear):
                     mod.use_cache(hist == "cache_after_sample")
                     mod.cache.invalidate()
+            if hist == "after_load":
+                # a flow built with other parameter / buffer values receives this flow's state dict
+                try:
+                    other = build_flow(torch, st, D, seed + 4)   # same atom classes, other values
+                    other.load_state_dict(flow.state_dict())
+                    flow_used = other
+                except Exception as e:  # noqa
+                    out["fails"].append(dict(case, hist=hist, clause="raises", detail="flow %s | %s: loading the state dict into a flow built under another seed raised %r" % (names, case["base"], e)))
+                    continue
+            else:
+                flow_used = flow
             if hist == "cache_after_sample":
                 # an inverse-first history (what sample() does) fills the caches through the inverse path
                 with torch.no_grad():
@@ -180,17 +216,19 @@ def flow_task(t):
                         out["fails"].append(dict(case, hist=hist, clause="raises", detail="flow %s | %s: inverse pass raised %r" % (names, case["base"], e)))
                         continue
             for r in range(len(ctxs)):
+                if not onto and r > 0:
+                    break   # (a very confident base hides the missing part of the support numerically)
                 out["n"] += 1
                 c = ctxs[r : r + 1] if case["ctx"] else None
                 try:
-                    tot = mass(torch, flow, D, c, 900 if D == 1 else 150)
+                    tot = mass(torch, flow_used, D, c, 900 if D == 1 else 150)
                 except Exception as e:  # noqa
                     if onto:
                         out["fails"].append(dict(case, hist=hist, clause="raises", detail="flow %s | %s (D=%d): log_prob raised %r on the data space" % (names, case["base"], D, e)))
                     break
                 tol = 3e-5 if D == 1 else 3e-3
                 if onto and not abs(tot - 1.0) <= tol:
-                    out["fails"].append(dict(case, hist=hist, clause="not_normalised", detail="flow %s | %s (D=%d%s%s): exp(log_prob) integrates to %.7f" % (" -> ".join(names), case["base"], D, ", context row %d" % r if case["ctx"] else "", ", cache on after sample()" if hist != "plain" else "", tot)))
+                    out["fails"].append(dict(case, hist=hist, clause="not_normalised", detail="flow %s | %s (D=%d%s%s): exp(log_prob) integrates to %.7f" % (" -> ".join(names), case["base"], D, ", context row %d" % r if case["ctx"] else "", {"plain": "", "cache_after_sample": ", cache on after sample()", "after_load": ", state dict loaded into a flow built with other values"}[hist], tot)))
                     break
                 if not onto and abs(tot - 1.0) <= tol:
                     out["drift"].append("flow %s | %s is not onto the base support according to FlowVal.tla but integrates to %.7f" % (names, case["base"], tot))
